@@ -672,23 +672,27 @@ def _walk(ctx):
                    path=K.describe(path) if path else None)
     ctx.require(count >= 1, 'not-up branch in the walk of Bucket.put')
     # the loop is left only by placing or by wrapping around
+    facts = N.must_facts(graph, nz)
+
+    def wrapped(atom):
+        return atom.key[0] == 'cmp' and atom.key[1] == '==' and any(
+            '.name' in t for t, _c in atom.key[2])
     for edge in K.loop_exit_edges(head):
         if edge.kind == 'exc':
             continue
         src = edge.src
-        if src.kind == 'return':
-            ok = isinstance(src.ast.value, ast.Constant) and \
-                src.ast.value.value is True
+        success = src.kind == 'return' and isinstance(
+            src.ast.value, ast.Constant) and src.ast.value.value is True
+        if success:
+            ok = K.guarded_by(graph, src, lambda e: any(
+                a.key[0] == 'truth' and a.key[2] and '.put(' in a.key[1]
+                for a in nz.facts_of_edge(e)), start=head)
             why = 'return after a successful child placement'
         else:
-            facts = N.must_facts(graph, nz)
-            ok = any(f.key[0] == 'cmp' and f.key[1] == '==' and
-                     any('.name' in t for t, _c in f.key[2])
-                     for f in facts[src]) or any(
-                         f.key[0] == 'cmp' and f.key[1] == '==' and
-                         any('.name' in t for t, _c in f.key[2])
-                         for f in nz.facts_of_edge(edge))
-            why = 'break when the strategy wrapped to the first child'
+            ok = any(wrapped(f) for f in facts[src]) or any(
+                wrapped(a) for a in nz.facts_of_edge(edge))
+            why = 'left without placing only when the strategy wrapped to ' \
+                  'the first child'
         ctx.ob('C02.5', put, src, ok, why,
                construct='walk exit: %s [%s]' % (
                    src.text(50), K.controlling(src, graph)))
